@@ -17,13 +17,11 @@ fi
 TH=$(VERIF_REPO=$D python3 -c "import sys; sys.path.insert(0,'/verif'); import verif; print(verif.tree_hash())")
 RC=0
 for C in "$@"; do
-  mkdir -p /tmp/rx-sens-ev
-  cp /verif/evidence/$C.json /tmp/rx-sens-ev/$C.json 2>/dev/null
+  mkdir -p /tmp/rx-sens-ev   # evidence of mutated runs never lands in /verif/evidence
   START=$(date +%s)
-  OUT=$(VERIF_REPO=$D python3 /verif/verif.py run $C --tier ${TIER:-quick} 2>&1); R=$?
+  OUT=$(VERIF_EVIDENCE_DIR=/tmp/rx-sens-ev VERIF_REPO=$D python3 /verif/verif.py run $C --tier ${TIER:-quick} 2>&1); R=$?
   END=$(date +%s)
   echo "== $NAME $C exit=$R ($((END-START))s)"; echo "$OUT" | grep -E "VIOLATION|reason|KNOWN|INCONCLUSIVE|BUILD-ERROR|OK property" | head -6
-  [ -f /tmp/rx-sens-ev/$C.json ] && cp /tmp/rx-sens-ev/$C.json /verif/evidence/$C.json
   [ $R -ne 1 ] && RC=1
 done
 rm -rf $D /verif/build/*-$TH
